@@ -6,8 +6,8 @@ import os
 
 import vlib
 
-OPC = {"set": 0, "get": 1, "del": 2, "exists": 3, "append": 4, "remove": 5, "incr": 6, "setnx": 7, "dropc": 8, "dropall": 9}
-UNMODELLED = ("incrby", "sethash", "gethash", "delhash", "setexp")
+OPC = {"set": 0, "get": 1, "del": 2, "exists": 3, "append": 4, "remove": 5, "incr": 6, "setnx": 7, "dropc": 8, "dropall": 9, "setexp": 10}
+UNMODELLED = ("incrby", "sethash", "gethash", "delhash")
 MUTATING = ("set", "del", "setnx", "append", "remove", "incr", "incrby", "sethash", "delhash", "setexp")
 
 # key pool: real prefixes of every class plus near-misses; classified by the REAL getCategory at run time
@@ -87,13 +87,13 @@ class Gen:
                 kind = kinds[k]
                 two = self.two_tier(keys[k], pers)
                 if kind == "s":
-                    choices = ["set", "get", "del", "exists", "get", "set"]
+                    choices = ["set", "get", "del", "exists", "get", "set", "setexp"]
                     if not two or self.fixed:
                         choices.append("setnx")
                     o = rng.choice(choices)
                     ops.append({"op": o, "k": k, "v": self.fresh()})
                 elif kind == "l":
-                    o = rng.choice(["append", "append", "remove", "get"])
+                    o = rng.choice(["append", "append", "remove", "get", "setexp"])
                     if o == "append":
                         e = self.fresh()
                         appended[k].add(e)
@@ -102,7 +102,7 @@ class Gen:
                         cand = sorted(appended[k]) + [1, 2, 3]
                         ops.append({"op": o, "k": k, "v": rng.choice(cand)})
                     else:
-                        ops.append({"op": "get", "k": k, "v": 0})
+                        ops.append({"op": o, "k": k, "v": 0})
                 elif kind == "c":
                     ops.append({"op": rng.choice(["incr", "incr", "incr", "get"]), "k": k, "v": 0})
                 else:
@@ -318,7 +318,9 @@ def exhaustive_cases(cats, locked=False):
     # tier calls per operation: the repaired Get is cache, re-check, persistent, fill; a repaired list call adds the fill
     g, l = (4, 5) if locked else (2, 4)
     pairs = [("get", "del", g, 2, "s"), ("get", "set", g, 2, "s"), ("append", "append", l, l, "l"), ("append", "remove", l, l, "l"),
-             ("set", "set", 2, 2, "s"), ("set", "del", 2, 2, "s"), ("exists", "del", 2, 2, "s")]
+             ("set", "set", 2, 2, "s"), ("set", "del", 2, 2, "s"), ("exists", "del", 2, 2, "s"),
+             # SetExpiration is a read-modify-write on the cache tier: it races every mutation of the key
+             ("setexp", "set", 2, 2, "s"), ("setexp", "del", 2, 2, "s"), ("setexp", "append", 2, l, "l"), ("setexp", "remove", 2, l, "l")]
     keys = ["tunnox:user:1", "tunnox:conn_state:1", "tunnox:client_mappings:1", "tunnox:temp:1"]
     for (a, b, sa, sb, kind), key, shared, pers, cold in itertools.product(pairs, keys, (True, False), (True, False), (True, False)):
         cat = cats[key][0]
@@ -373,14 +375,14 @@ def modelled(c):
         return True
     if c["mode"] == "sched" and c.get("locks") == "wb" and any(o["op"] in ("append", "remove") for t in c["threads"] for o in t["ops"]):
         return False  # write-back fix without the list fix: a list call re-takes the lock it just released, which the harness cannot observe
-    return c["mode"] == "sched" and not c.get("raw") and all(o["op"] in OPC for t in c["threads"] for o in t["ops"])
+    return c["mode"] == "sched" and not c.get("raw") and not c.get("plain") and all(o["op"] in OPC for t in c["threads"] for o in t["ops"])
 
 
 def case_value(c, o, fixed):
     if c["mode"] == "cat":
         return [1, [], [k.encode() for k in c["keys"]], [], [], [], 0, [[cat, bool(sh)] for cat, sh in zip(o["cats"], o["cache_shared"])]]
     if c["mode"] == "nodes":
-        cfgv = [bool(c["shared"]), bool(c["pers"]), bool(fixed["incr"]), bool(fixed["setnx"]), bool(fixed["wb"]), bool(fixed["list"]), bool(fixed["cwf"]), bool(fixed["cre"])]
+        cfgv = [bool(c["shared"]), bool(c["pers"]), bool(fixed["incr"]), bool(fixed["setnx"]), bool(fixed["wb"]), bool(fixed["list"]), bool(fixed["cwf"]), bool(fixed["cre"]), bool(fixed["explock"])]
         init = [[i["tier"], i["k"], enc_val(i)] for i in c["init"]]
         steps = []
         for st in c["steps"]:
@@ -390,7 +392,7 @@ def case_value(c, o, fixed):
         tier = lambda t: [[e[0], enc_obs_val(e[1])] for e in t]
         return [2, cfgv, [k.encode() for k in c["keys"]], init, steps, [], c["nodes"],
                 [[enc_res(r) for r in o["results"]], [tier(t) for t in o["locals"]], tier(o["shared"]), tier(o["pers"])]]
-    cfgv = [bool(c["shared"]), bool(c["pers"]), bool(fixed["incr"]), bool(fixed["setnx"]), bool(fixed["wb"]), bool(fixed["list"]), bool(fixed["cwf"]), bool(fixed["cre"])]
+    cfgv = [bool(c["shared"]), bool(c["pers"]), bool(fixed["incr"]), bool(fixed["setnx"]), bool(fixed["wb"]), bool(fixed["list"]), bool(fixed["cwf"]), bool(fixed["cre"]), bool(fixed["explock"])]
     init = [[i["tier"], i["k"], enc_val(i)] for i in c["init"]]
     ths = []
     for t, lg in zip(c["threads"], o["logs"]):
@@ -524,7 +526,8 @@ def run(ctx, only_cases=None):
     # -cache-read-error): behavioural probes — is the key lock held during the tier calls of Set / AppendToList, does a failing cache.Set
     # of a Set get invalidated, does a failing cache.Get on a runtime key surface as an error
     pr = vlib.run_harness(binary, [{"mode": "probe"}])[0]
-    fixed.update({"wb": bool(pr["lock_in_set"]), "list": bool(pr["lock_in_append"]), "cwf": bool(pr["invalidates"]), "cre": bool(pr["read_error_is_error"])})
+    fixed.update({"wb": bool(pr["lock_in_set"]), "list": bool(pr["lock_in_append"]), "cwf": bool(pr["invalidates"]), "cre": bool(pr["read_error_is_error"]),
+                  "explock": bool(pr["lock_in_setexp_read"]) or not pr["lock_in_set"]})
     locks = "wb+list" if (fixed["wb"] and fixed["list"]) else "wb" if fixed["wb"] else ""
 
     if only_cases is not None:
@@ -541,6 +544,11 @@ def run(ctx, only_cases=None):
         cases += dc if thorough else [dc[i] for i in sorted(rng.sample(range(len(dc)), 250))] + [x for x in dc if x["table"] == "shared_persistent" and x["writes"][0] == "setnx"][:20]
         cases += [nodes_case(rng, cats, fixed["setnx"]) for _ in range(4000 if thorough else 350)]
         cases += alias_cases(rng, cats, 3000 if thorough else 200)
+        gp = Gen(rng, cats, fixed["setnx"])
+        for _ in range(1500 if thorough else 150):
+            cpl = gp.case()
+            cpl["plain"] = True   # caches without SetNX / IncrBy: hybrid's own Get+Set / Exists+Set fallbacks race the other callers
+            cases.append(cpl)
         g = Gen(rng, cats, fixed["setnx"])
         cases += [g.case() for _ in range(12000 if thorough else 1200)]
         ex = exhaustive_cases(cats, locked=bool(fixed["wb"]))
